@@ -140,7 +140,7 @@ Level3 == {ArrayS(MapS(ArrayS(PLong))), MapS(UnionS(<<PNull, ArrayS(PStr)>>)), A
 Universe == IF Size \in {"proj", "projfull"} THEN ProjUniverse ELSE IF Size = "quick" THEN Prims \cup {ArrayS(PLong), MapS(PStr), UnionS(<<PNull, PStr>>), UnionS(<<PLong, PNull>>),
                                                RecordS("R", <<FieldS("a", PLong), FieldS("b", PStr)>>), ArrayS(ArrayS(PLong)),
                                                RecordS("R", <<FieldS("l", ArrayS(PLong)), FieldS("m", MapS(PStr)), FieldS("z", PLong)>>), CaseRec,
-                                               ArrayS(Prim("double")), ArrayS(Prim("float")),
+                                               ArrayS(Prim("double")), ArrayS(Prim("float")), MapS(UnionS(<<PNull, Prim("int"), PLong>>)),
                                                RecordS("O", <<FieldS("h", PLong), FieldS("n", RecordS("I2", <<FieldS("a", PLong), FieldS("b", PStr), FieldS("c", PLong)>>)), FieldS("t", PLong)>>)}
             ELSE Prims \cup Level1 \cup Level2 \cup Level3 \cup {CaseRec}
 
